@@ -352,8 +352,8 @@ func c19Names(u *vfUnit) {
 	r := u.Rng
 	dir := u.TempDir()
 	os.WriteFile(filepath.Join(dir, "a"), []byte("x"), 0o644)
-	for _, kind := range []vfKind{vfOS, vfRS} {
-		cfg := vfSrvCfg{Kind: kind}
+	for ki, kind := range []vfKind{vfOS, vfRS, vfOS} {
+		cfg := vfSrvCfg{Kind: kind, ReadOnly: ki == 2} // the third pass: a read-only os-backed server
 		if kind == vfRS {
 			cfg.H = InMemHandler()
 		}
@@ -373,7 +373,7 @@ func c19Names(u *vfUnit) {
 			}
 			return true
 		}
-		if kind == vfOS {
+		if kind == vfOS && !cfg.ReadOnly {
 			// every advertised extension is served
 			for i, e := range c19Supported {
 				id++
@@ -426,7 +426,7 @@ func c19Names(u *vfUnit) {
 				break
 			}
 			if !(resp[0].Type == rfStatus && resp[0].Code == rfUnsupported && resp[0].ID == id) {
-				u.Violation("unknown-ext-answer:"+kind.String(), fmt.Sprintf("extended request with unknown name %s answered %s instead of OP_UNSUPPORTED", label, resp[0]), map[string]any{"name": n})
+				u.Violation(fmt.Sprintf("unknown-ext-answer:%v:readonly=%v", kind, cfg.ReadOnly), fmt.Sprintf("extended request with unknown name %s answered %s instead of OP_UNSUPPORTED (read-only server: %v)", label, resp[0], cfg.ReadOnly), map[string]any{"name": n})
 			}
 			if !probe(label) {
 				break
